@@ -13,24 +13,27 @@ CHECKS = {
     note="Digest algorithms (hashlib, xxhash) and CPython file objects are modelled, not verified; streaming law is an explicit hypothesis.",
     ref="DESIGN.md §5 C16"),
  "C10": dict(
-    technique="Lean 4 proof (invariant over all op lists of the filler model M-FILL) + differential correspondence of the real DatasetFiller on generated write sequences",
+    technique="Lean 4 proof (invariant over all op lists of the filler model M-FILL, carried through M-TREE to every enumerated shard after every history; roll-over test re-checked on a statement-order table generated from the source on every run) + differential correspondence of the real DatasetFiller on generated write sequences",
     text="C10_shard_size_bounds, C10_never_close_fails, C10_nonlast_full_or_mdchange, C10_full_except_last, C10_sessions hold for every eps>=1 and every "
          "interleaving of splits, metadata values, rejected writes and sessions. M-FILL is tied to /repo by replaying the write outcomes observed on the "
-         "real filler (fb/npz/tfrec) through the compiled Lean model and comparing the listing a fresh reader sees.",
+         "real filler (fb/npz/tfrec) through the compiled Lean model and comparing the listing a fresh reader sees."
+         ' System level (SedpackProps/C10System.lean): C10_enumerated_shards_in_bounds / C10_history_in_bounds carry the bound through M-TREE to every shard a reader enumerates after any history of filler sessions; C10Src.lean re-checks the roll-over test (>=, before the write) against the statement order extracted from the current source on every run.',
     note="Shard encoders/decoders are used only to count stored examples; writers assumed atomic per example (C18 checks that).",
     ref="DESIGN.md §5 C10"),
  "C11": dict(
-    technique="Lean 4 proof (label invariant of M-FILL under value semantics; reference-semantics counterexample by decide) + differential correspondence incl. in-place mutation of the caller's dict",
+    technique="Lean 4 proof (label invariant of M-FILL under value semantics; reference-semantics counterexample by decide; labels carried through M-TREE to every enumerated shard after every history) + differential correspondence incl. in-place mutation of the caller's dict",
     text="C11_md_labels, C11_every_write_listed_once, C11_select_by_md for every write sequence; C11_alias_counterexample is the kernel-checked witness of the "
-         "pinned by-reference defect (fixed in /repo). Correspondence runs mutate and reuse the caller's objects across size boundaries and splits.",
+         "pinned by-reference defect (fixed in /repo). Correspondence runs mutate and reuse the caller's objects across size boundaries and splits."
+         ' System level (SedpackProps/C11System.lean): C11_enumerated_shard_origin, C11_enumerated_shards_labelled, C11_history_labelled: every shard entry a reader enumerates after any history is the record of a closed shard whose examples written under a non-empty value were written under the recorded one.',
     note="Examples written with absent metadata are unconstrained (documented retroactive labelling). JSON round-trip of metadata values is C20's concern.",
     ref="DESIGN.md §5 C11"),
  "C18": dict(
-    technique="Lean 4 proof (filler level: reject_no_trace as a corollary of the conservation invariant of M-FILL; writer level: M-WRITER models of the npz / FlatBuffers / TFRecord writers with 'decoded = accepted examples' for every sequence of calls; pinned-order witnesses by decide) + differential correspondence with 8 kinds of invalid writes on all formats and call-by-call comparison of the real writers' buffers with M-WRITER",
+    technique="Lean 4 proof (filler level: reject_no_trace as a corollary of the conservation invariant of M-FILL; writer level: M-WRITER models of the npz / FlatBuffers / TFRecord writers with 'decoded = accepted examples' for every sequence of calls; pinned-order witnesses by decide; the model configuration re-derived from a statement-order table generated from the source on every run) + differential correspondence with 8 kinds of invalid writes on all formats and call-by-call comparison of the real writers' buffers with M-WRITER",
     text="C18_reject_no_trace, C18_counts_exclude_rejected for all prefixes/suffixes; the oracle demands: must-reject kinds raise, valid writes never fail, "
          "no orphan shard file, every listed shard decodable, read-back equals accepted writes. Writer level (SedpackProps/C18Writers.lean): C18_npz_write_atomic, C18_npz_decodes_accepted, "
          "C18_fb_decodes_accepted, C18_tfrec_decodes_accepted, C18_tfrec_no_orphan_file, witnesses C18_npz_pinned_ragged (D5b) and C18_tfrec_pinned_orphan (D4b); each real writer is driven directly "
-         "with missing keys / wrong shapes / encoder refusals at the first, middle and last attribute and its buffer compared with the model after every call.",
+         "with missing keys / wrong shapes / encoder refusals at the first, middle and last attribute and its buffer compared with the model after every call."
+         ' C18Src.lean: the model configuration the theorems are proved for (write before metadata attach, before any counter; validation before the buffer is touched) is re-derived from the statement order of write_example / Shard.write / ShardWriterBase.write extracted from the current source on every run (C18_src_model_configuration).',
     note="numpy can_cast and TensorFlow feature construction decide *which* values an encoder refuses (externals; the model takes that verdict as an input bit per value).",
     ref="DESIGN.md §5 C18"),
  "C13": dict(
@@ -43,11 +46,12 @@ CHECKS = {
     note="CPython queue.Queue (FIFO, blocking get) and threading are the modelled boundary; abandoning is allowed at any point between two results (a superset of the yield points).",
     ref="DESIGN.md §5 C13, Appendix A.1"),
  "C02": dict(
-    technique="Lean 4 proof (permutation theorems for the shuffle-buffer and round-robin monitors by counting invariants, lazy-pool exactly-once, batch concatenation, composed per interface) + trace-acceptance correspondence of the real generators and end-to-end multiset comparison through all five interfaces",
+    technique="Lean 4 proof (permutation theorems for the shuffle-buffer and round-robin monitors by counting invariants, lazy-pool exactly-once, batch concatenation, composed per interface; multiset equality written = enumerated through M-TREE for every history) + trace-acceptance correspondence of the real generators and end-to-end multiset comparison through all five interfaces",
     text="C02_shuffle_buffer_perm, C02_round_robin_perm, C02_round_robin_opens_all, C02_pool_perm, C02_batches_concat and their compositions "
          "C02_exactly_once_sync/_concurrent/_async: every complete run of an interface yields a permutation of (selected shards' examples).map g, for every shuffle size, "
          "file_parallelism>=1 and schedule. The monitors are tied to /repo by replaying boundary traces of the real shuffle_buffer/round_robin (sync and async); "
-         "datasets are read through sync/concurrent/async/rust/tf.data and compared as multisets with process_record call counts.",
+         "datasets are read through sync/concurrent/async/rust/tf.data and compared as multisets with process_record call counts."
+         ' System level (SedpackProps/C02System.lean): C02_session_examples_perm / C02_history_examples_perm / C02_written_is_enumerated (the examples enumerated for a split after any history of sessions with fresh shard names are, as a multiset, exactly the examples the sessions stored for it) and C02_end_to_end (composed with the pipeline theorems: one pass of the synchronous, concurrent or asyncio interface - any shuffle size, parallelism and schedule - delivers a permutation of everything written).',
     note="tf.data operators and the Rust reader's timing are specified externals (outputs compared). Which shards are selected is C12/C04.",
     ref="DESIGN.md §5 C02"),
  "C03": dict(
@@ -85,17 +89,19 @@ CHECKS = {
     note="Same model and externals as C04.",
     ref="DESIGN.md §5 C08"),
  "C05": dict(
-    technique="Lean 4 proof (check completeness on exact trees; detection of any altered/removed/replaced list or shard file by induction along the check's two passes, under a per-pair no-collision premise) + fault enumeration against the real Dataset.check",
+    technique="Lean 4 proof (check completeness on exact trees; detection of any altered/removed/replaced list or shard file by induction along the check's two passes, under a per-pair no-collision premise; theorems over a statement-order table of Dataset.check generated from the source on every run) + fault enumeration against the real Dataset.check",
     text="C05_check_complete, C05_check_after_history, C05_detects_list_file, C05_detects_shard_file, C05_root_checksum. Faults (bit flips, truncation, extension, deletion, sibling swap, "
          "roll-back to an older committed version, description flip with expected checksums, in-place flip with size and mtime preserved) are planted on every sampled reachable file of "
-         "committed flat and nested datasets with 1..13 algorithms; the real check must raise for each and pass on the untouched dataset.",
+         "committed flat and nested datasets with 1..13 algorithms; the real check must raise for each and pass on the untouched dataset."
+         ' C05Src.lean re-checks, on the statement order extracted from the current source on every run, that _check_shard_list_info hashes and compares (!=, raise) before it parses and recurses, and that check() verifies description, lists, shards in that order with a raise after each inequality.',
     note="Hash functions are external; detection is stated for modifications whose new digest differs from the recorded one (checked by the harness for every planted fault).",
     ref="DESIGN.md §5 C05"),
  "C06": dict(
-    technique="Lean 4 proof (invariants over every reachable state of the file-system-effect LTS M-CRASH: listed => closed, children first, description last, monotone reachability; every prefix of an accepted trace is a state) + acceptance of the real code's audit-hook effect trace + recovery oracle on a snapshot at every effect boundary incl. torn variants",
+    technique="Lean 4 proof (invariants over every reachable state of the file-system-effect LTS M-CRASH: listed => closed, children first, description last, monotone reachability; every prefix of an accepted trace is a state; refinement of the code-shaped merge to an effect-emitting model whose install sequence is proved valid, so every prefix is sandwiched between the committed and the final store; theorems over statement-order tables generated from the source on every run) + install order and crash states of the real session = the model's + acceptance of the real code's audit-hook effect trace + recovery oracle on a snapshot at every effect boundary incl. torn variants",
     text="C06_invariant, C06_reachable_complete, C06_committed_kept, C06_children_first, C06_closed_stays, C06_every_prefix_is_a_state, C06_partial_writes_invisible. Real sessions (first/continued, root/sub/nested, "
          "multi-writer) run under an audit hook; the directory is snapshotted before every open/rename/mkdir/remove, after every rename and after every write_example; every snapshot (and torn variants) is reopened: "
-         "metadata parse, reachable shards complete and matching checksums, committed examples present, only whole written examples.",
+         "metadata parse, reachable shards complete and matching checksums, committed examples present, only whole written examples."
+         " Code-shaped crash model (SedpackModel/TreeCrash.lean, SedpackProofs/TreeCrash.lean, SedpackProps/C06Tree.lean): sessionE is M-TREE's session emitting every list document it installs in program order; C06_effects_refine_session (same dataset, installs reproduce the store), C06_session_installs_valid (children first, every document well formed, documents only grow - M-CRASH's install guards derived rather than observed), C06_session_crash_points / C06_history_crash_points (after ANY prefix of the installs of a session continuing ANY history: no dangling record, every committed shard still enumerated in list order, nothing enumerated that was not committed or closed by the session). Second correspondence: the documents and the order the real session renames into place = sessionE's installs, and the reader's enumeration of every after-rename snapshot = the model's crash state. C06Src.lean re-checks the effect order (write-then-rename, close-then-hash-then-list, children before parent, lists before description) against the statement order extracted from the current source on every run.",
     note="Atomic rename, 'a process crash loses no completed write', fresh uuid names are assumptions; TensorFlow's native writes are observed via results; concurrent reader = a crash state.",
     ref="DESIGN.md §5 C06, Appendix A.4"),
  "C09": dict(
